@@ -4,6 +4,7 @@ import Pdq.Props.C08
 import Pdq.Props.C02
 import Pdq.Props.C03
 import Pdq.Lemmas.IwpDen
+import Pdq.Props.C06
 /-!
 # C01 — Adaptive solves meet the tolerance; fixed-step solves converge at order q+1  *(partial: consistency)*
 
@@ -28,10 +29,9 @@ about the definitions the driver executes (`Pdq.Model.Iwp`, `Pdq.Model.Solver`):
   `H Q(h) Hᵀ = s2 h^(2(q-ord)+1) / ((2(q-ord)+1) ((q-ord)!)²)`;
 * `d8_every_gain_certified` — in the situation of finding D8 (dynamic calibration, exact data, damp = 0) the
   innovation covariance is `0`, every gain is certified and the model's posterior mean is still exact; the
-  real code divides `0/0` there.
-
-`accepted_steps_meet_estimate` (an accepted step has scaled error estimate ≤ 1) belongs to the loop model
-(`Pdq.Model.Adaptive`, property C06) and is stated there.
+  real code divided `0/0` there (repaired in the repository by flooring the local scale at machine epsilon);
+* `accepted_steps_meet_estimate` — corollary of `C06.step_accepts` about `Pdq.Model.Adaptive`: the state a
+  rejection loop returns was proposed by an attempt whose scaled local error estimate is `≤ 1`.
 -/
 set_option linter.unusedSectionVars false
 open Matrix Polynomial
@@ -497,12 +497,38 @@ theorem estimate_order [CharZero K] (q ord : ℕ) (hord : ord ≤ q) (h s2 gt da
   have he : 2 * q + 1 - ord - ord = 2 * (q - ord) + 1 := by omega
   rw [he, pow_two, mul_assoc]
 
+/-! ## 5b. the acceptance invariant -/
+
+/-- **`accepted_steps_meet_estimate`.** About the loop model `Pdq.Model.Adaptive` (every solver, every estimator,
+every controller, every fuel, every history): whatever `RejectionLoop.step` returns was proposed by its last
+attempt, and that attempt's squared scaled local error estimate `norm2 a` is `≤ 1` — for every estimator whose
+acceptance quantity is `error_power = norm^(-1/rate)`, stated root-free as `error_power^(2·rate) · norm² = 1`
+(the relation documented in `Pdq.Model.ErrorEst` / C07; `rate = q + 1` for the shipped estimators; an estimate
+of exactly `0` gives `error_power = ∞` in the code and is outside this algebraic statement — it is accepted too). -/
+theorem accepted_steps_meet_estimate {K σ : Type} [Field K] [LinearOrder K] [IsStrictOrderedRing K]
+    (cfg : Cfg K σ) (hseed : cfg.seed < 1) (fuel : Nat) (s s' : TimeStepState K σ) (t1 : K)
+    (h : cfg.step fuel s t1 = some s') (rate : ℕ) (norm2 : AttemptRec K σ → K)
+    (hrel : ∀ a : AttemptRec K σ, 0 < a.ep → a.ep ^ (2 * rate) * norm2 a = 1) :
+    ∃ a tl, s'.trace = Event.attempt a :: tl ∧ s'.stepFrom = a.proposed ∧ a.src = s.stepFrom ∧ norm2 a ≤ 1 := by
+  obtain ⟨a, tl, htr, hep, hsrc, _, hprop, _⟩ := C06.step_accepts cfg hseed fuel s s' t1 h
+  refine ⟨a, tl, htr, hprop, hsrc, ?_⟩
+  have hpos : 0 < a.ep := lt_of_lt_of_le one_pos hep
+  have hpow : 1 ≤ a.ep ^ (2 * rate) := one_le_pow₀ hep
+  have hne : a.ep ^ (2 * rate) ≠ 0 := (lt_of_lt_of_le one_pos hpow).ne'
+  have hn : norm2 a = (a.ep ^ (2 * rate))⁻¹ := eq_inv_of_mul_eq_one_right (hrel a hpos)
+  rw [hn]
+  exact inv_le_one_of_one_le₀ hpow
+
+/-- non-vacuity: an attempt with `error_power = 2`, `rate = 3`, `norm² = 1/64` satisfies the relation -/
+example : (2 : ℚ) ^ (2 * 3) * (1 / 64) = 1 := by norm_num
+
 /-! ## 6. finding D8: zero local scale, zero covariance, zero damping -/
 
 /-- In the situation of D8 (exact initial state: zero covariance; dynamic calibration returned the local scale 0;
 damp = 0) the predicted covariance, the innovation covariance and the cross-covariance all vanish, so **every**
 gain `G` satisfies the certificate `G S = P⁻ Hᵀ`; by `step_mean_exact` the posterior mean is exact for each of
-them. The model is total there; the real `solver_dynamic.step` evaluates `solve_triu(0, 0)` and returns NaN. -/
+them. The model is total there; the real `solver_dynamic.step` evaluated `solve_triu(0, 0)` and returned NaN
+(finding D8, since repaired in the repository: the local scale is floored at machine epsilon). -/
 theorem d8_every_gain_certified [CharZero K] (q ord : ℕ) (h gt : K) (st : SolState (q+1) K)
     (hcov : st.u.cov.toM = 0) (Gt : Mat (q+1) (q+1) K) (G : Mat (q+1) 1 K) :
     let pred := Strategy.filter.predict (Iwp.transition1 q h 0) st Gt
